@@ -2,8 +2,6 @@ package dicescript
 
 import (
 	"errors"
-
-	"golang.org/x/exp/rand"
 )
 
 func funcComputedCompute(ctx *Context, this *VMValue, params []*VMValue) *VMValue {
@@ -59,15 +57,23 @@ func funcArrayShuttle(ctx *Context, this *VMValue, params []*VMValue) *VMValue {
 	arr, _ := this.ReadArray()
 	lst := arr.List
 	for i := len(lst) - 1; i > 0; i-- { // Fisher–Yates shuffle
-		j := rand.Intn(i + 1)
+		j := ctxRandIntn(ctx, i+1)
 		lst[i], lst[j] = lst[j], lst[i]
 	}
 	return this
 }
 
+// ctxRandIntn draws from [0, n) using the context's generator, like the dice do.
+func ctxRandIntn(ctx *Context, n int) int {
+	if ctx == nil {
+		return int(Roll(nil, IntType(n), 0)) - 1
+	}
+	return int(Roll(ctx.RandSrc, IntType(n), 0)) - 1
+}
+
 func funcArrayRand(ctx *Context, this *VMValue, params []*VMValue) *VMValue {
 	arr, _ := this.ReadArray()
-	return arr.List[rand.Intn(len(arr.List))]
+	return arr.List[ctxRandIntn(ctx, len(arr.List))]
 }
 
 func funcArrayRandSize(ctx *Context, this *VMValue, params []*VMValue) *VMValue {
